@@ -87,6 +87,15 @@ def run(tier, seed, log=common.say):
     for i, t in enumerate(traces):
         t["tid"] = i + 1
     verdicts, states, trans, errs = validate(traces, ed.TEMPLATES)
+    # (M) all histories of the implementation-shaped life-cycle machine up to a length bound
+    os.makedirs(common.CACHE, exist_ok=True)
+    mcfg = os.path.join(common.CACHE, "LifecycleMC-run.cfg")
+    with open(mcfg, "w") as f:
+        f.write(f"CONSTANTS\n MaxOps = {5 if tier == 'quick' else 6}\n NI = 2\n NX = 2\n NF = 1\nSPECIFICATION Spec\n"
+                "INVARIANT SetupOnce\nINVARIANT StoredIsSetup\nINVARIANT NoRecompute\nPROPERTY StartedStays\nCHECK_DEADLOCK FALSE\n")
+    mr = tlc.run_tlc("LifecycleMC", mcfg, workers=6, heap="6g", timeout=7200)
+    model = {"ok": "No error has been found" in mr["out"], "states": mr.get("distinct", 0), "transitions": mr.get("states", 0),
+             "max_ops": 5 if tier == "quick" else 6, "tail": "" if "No error has been found" in mr["out"] else mr["out"][-800:]}
     counters, viol_counts, viols, kept = {}, {}, [], {}
     for t in traces:
         v = verdicts.get(t["tid"])
@@ -103,7 +112,7 @@ def run(tier, seed, log=common.say):
     out = {"engine": "E4", "tier": tier, "seed": seed, "histories": len(jobs), "distinct_traces": len(traces),
            "events": sum(len(t["ev"]) for t in traces), "skipped_after_hang": skipped, "harness_errors": [h["ev"][-1] for h in herr][:5],
            "harness_error_count": len(herr), "validated": len(verdicts), "states": states, "transitions": trans,
-           "tlc_errors": errs[:2], "counters": counters, "viol_counts": viol_counts, "violations": viols,
+           "tlc_errors": errs[:2], "model": model, "counters": counters, "viol_counts": viol_counts, "violations": viols,
            "samples": [{"template": ed.TEMPLATES[t["d"] - 1]["name"], "async": t["async"],
                         "events": [{k: e[k] for k in ("op", "i", "x", "f", "t", "dep", "args", "out", "e", "keys", "cached", "fresh")} for e in t["ev"]]}
                        for t in traces[:: max(1, len(traces) // 3)][:3]],
@@ -138,6 +147,8 @@ def report(prop, res):
         mach.append(f"ill-formed histories: {wf}")
     if res["tlc_errors"]:
         mach.append("TLC failed: " + res["tlc_errors"][0][-500:])
+    if not res["model"]["ok"]:
+        mach.append("LifecycleMC failed: " + res["model"]["tail"][-400:])
     if res["validated"] != res["distinct_traces"]:
         mach.append(f'validated {res["validated"]} of {res["distinct_traces"]} histories')
     if res["harness_error_count"]:
@@ -145,7 +156,8 @@ def report(prop, res):
     nontriv = res["counters"].get(NONTRIVIAL[prop], 0)
     if nontriv < 2:
         mach.append(f"vacuous: {nontriv} non-trivial histories for {prop}")
-    cov = {"states": res["states"], "transitions": res["transitions"], "traces_validated_against_impl": res["validated"],
+    cov = {"states": res["states"] + res["model"]["states"], "transitions": res["transitions"] + res["model"]["transitions"],
+           "model_run": {k: res["model"][k] for k in ("ok", "states", "transitions", "max_ops")}, "traces_validated_against_impl": res["validated"],
            "evaluations": res["histories"], "distinct_nontrivial": nontriv,
            "rule": "histories = words over an operation alphabet (calls with full / defaulted / other / failing arguments, setup with and "
                    "without targets, executor creation with target / exclude / none, executor runs and re-runs, deep copy and calls on the copy, "
